@@ -90,6 +90,30 @@ pub fn c16_inner_slice_deep() {
     same_stream(&a, na, &b, nb);
 }
 
+/// Nested in a generic structure: the header is written from `SerType`, which
+/// must be *the vector-holding type itself* (type-level equality: the same
+/// generic instantiation of write_header, hence the same header bytes), and the
+/// inner streams are byte-for-byte equal.
+#[cfg_attr(kani, kani::proof)] #[cfg_attr(kani, kani::unwind(6))]
+pub fn c16_sertype_nested() {
+    use core::marker::PhantomData;
+    let _a: PhantomData<DeepS<Vec<u16>>> = PhantomData::<<DeepS<&[u16]> as SerializeInner>::SerType>;
+    let _b: PhantomData<DeepS<Vec<u16>>> = PhantomData::<<DeepS<SerIter<'static, u16, core::slice::Iter<'static, u16>>> as SerializeInner>::SerType>;
+    let _c: PhantomData<Vec<u16>> = PhantomData::<<&[u16] as SerializeInner>::SerType>;
+    let v: Vec<u16> = vec_upto::<u16, 2>();
+    let id: u16 = any();
+    let tail: Option<u8> = any();
+    let mut a = Sink::<32>::new();
+    let mut b = Sink::<32>::new();
+    let mut c = Sink::<32>::new();
+    let (na, nb, nc);
+    { let x = DeepS { id, data: v.clone(), tail }; let mut w = WriterWithPos::new(&mut a); w.write_all(&[0xAA; 1]).unwrap(); SerializeInner::_serialize_inner(&x, &mut w).unwrap(); na = w.pos(); }
+    { let x = DeepS { id, data: v.as_slice(), tail }; let mut w = WriterWithPos::new(&mut b); w.write_all(&[0xAA; 1]).unwrap(); SerializeInner::_serialize_inner(&x, &mut w).unwrap(); nb = w.pos(); }
+    { let x = DeepS { id, data: SerIter::new(v.iter()), tail }; let mut w = WriterWithPos::new(&mut c); w.write_all(&[0xAA; 1]).unwrap(); SerializeInner::_serialize_inner(&x, &mut w).unwrap(); nc = w.pos(); }
+    same_stream(&a, na, &b, nb);
+    same_stream(&a, na, &c, nc);
+}
+
 /// Nested in a generic structure (parameter field), header included.
 #[cfg_attr(kani, kani::proof)] #[cfg_attr(kani, kani::unwind(90))]
 pub fn c16_hdr_nested() {
